@@ -221,6 +221,9 @@ func vfGenTP(t *rapid.T, i int) vfTP {
 		n := num()
 		return vfTP{tp: ActiveConnectionIDLimit(n), desc: "ActiveConnectionIDLimit", num: n, isNum: true}
 	case 11:
+		if rapid.IntRange(0, 3).Draw(t, l+"_cidnil") == 0 {
+			return vfTP{tp: InitialSourceConnectionID(nil), desc: "InitialSourceConnectionID(nil)"} // zero-length CID as a nil slice
+		}
 		return vfTP{tp: InitialSourceConnectionID(rapid.SliceOfN(rapid.Byte(), 0, 20).Draw(t, l+"_cid")), desc: "InitialSourceConnectionID"}
 	case 12:
 		vi := &VersionInformation{
@@ -230,6 +233,9 @@ func vfGenTP(t *rapid.T, i int) vfTP {
 		}
 		return vfTP{tp: vi, desc: "VersionInformation"}
 	case 13:
+		if rapid.IntRange(0, 4).Draw(t, l+"_padnil") == 0 {
+			return vfTP{tp: PaddingTransportParameter(nil), desc: "Padding(nil)"}
+		}
 		return vfTP{tp: PaddingTransportParameter(make([]byte, rapid.IntRange(0, 300).Draw(t, l+"_pad"))), desc: "Padding"}
 	case 14:
 		n := num()
@@ -257,6 +263,9 @@ func vfGenTP(t *rapid.T, i int) vfTP {
 		}
 		if id == 0 {
 			id = 1
+		}
+		if rapid.IntRange(0, 4).Draw(t, l+"_fnil") == 0 {
+			return vfTP{tp: &FakeQUICTransportParameter{Id: id}, desc: "Fake(no value)", fake: true} // flag-style parameter: Val left unset
 		}
 		return vfTP{tp: &FakeQUICTransportParameter{Id: id, Val: rapid.SliceOfN(rapid.Byte(), 0, 80).Draw(t, l+"_fv")}, desc: "Fake", fake: true}
 	}
